@@ -82,7 +82,20 @@ func SeenPoolGen(t *rapid.T, label string, n int) []SeenLogical {
 		src := pool[rapid.IntRange(0, i-1).Draw(t, lb+".from")]
 		l := src
 		l.Pairs = append([]SeenPair(nil), src.Pairs...)
-		switch op := rapid.IntRange(0, 6).Draw(t, lb+".mut"); {
+		switch op := rapid.IntRange(0, 8).Draw(t, lb+".mut"); {
+		case op == 7 && strings.ToUpper(l.Path) != l.Path: // the same path in another letter case: another resource
+			if i := strings.LastIndexByte(l.Path, '/'); i >= 0 && i+1 < len(l.Path) {
+				l.Path = l.Path[:i+1] + strings.ToUpper(l.Path[i+1:i+2]) + l.Path[i+2:]
+			}
+		case op == 8 && len(l.Pairs) >= 1: // a key or value in another letter case
+			a := rapid.IntRange(0, len(l.Pairs)-1).Draw(t, lb+".case")
+			if up := strings.ToUpper(l.Pairs[a].V); up != l.Pairs[a].V {
+				l.Pairs[a].V = up
+			} else if up := strings.ToUpper(l.Pairs[a].K); up != l.Pairs[a].K {
+				l.Pairs[a].K = up
+			} else {
+				l.Pairs[a].V = strings.ToLower(l.Pairs[a].V)
+			}
 		case op == 0 && len(l.Pairs) >= 2: // swap two parameters
 			a := rapid.IntRange(0, len(l.Pairs)-2).Draw(t, lb+".swap")
 			l.Pairs[a], l.Pairs[a+1] = l.Pairs[a+1], l.Pairs[a]
